@@ -5,7 +5,7 @@
 //! and a small section that pays for the KDF (garbage ≥ 20 bytes, genuine encrypt→decrypt round
 //! trips, wrong password, truncations, and files sealed by the harness around arbitrary plaintext).
 
-use crate::common::{guarded, hex_class, hex_text, junk, raw_bytes, Text};
+use crate::common::{re, guarded, hex_class, hex_text, junk, raw_bytes, Text};
 use crate::wallet::encryption::{decrypt_private_key, encrypt_private_key};
 use proptest::prelude::*;
 use ring::aead::{BoundKey, Nonce, NonceSequence};
@@ -25,8 +25,8 @@ pub struct Cheap {
 fn password() -> BoxedStrategy<String> {
     prop_oneof![
         2 => Just(String::new()),
-        3 => "[ -~]{1,12}",
-        1 => "\\PC{1,6}",
+        3 => re("[ -~]{1,12}"),
+        1 => re("\\PC{1,6}"),
         1 => Just("p".repeat(300)),
     ]
     .boxed()
@@ -99,8 +99,8 @@ pub fn kdf_strategy() -> BoxedStrategy<Kdf> {
         // what `Wallet::random_private_key()` yields: 0x + 64 hex digits
         4 => proptest::collection::vec(any::<u8>(), 32).prop_map(|b| format!("0x{}", hex::encode(b))),
         1 => Just(String::new()),
-        1 => "[ -~]{0,40}",
-        1 => "\\PC{0,12}",
+        1 => re("[ -~]{0,40}"),
+        1 => re("\\PC{0,12}"),
         1 => (junk(), 0usize..4).prop_map(|(j, n)| j.repeat(n)),
     ];
     let roundtrip = (key, password(), proptest::option::weighted(0.25, password()), proptest::option::weighted(0.25, any::<u16>()))
@@ -108,8 +108,8 @@ pub fn kdf_strategy() -> BoxedStrategy<Kdf> {
     let plaintext = prop_oneof![
         3 => proptest::collection::vec(any::<u8>(), 0..48),
         2 => proptest::collection::vec(prop_oneof![Just(0xffu8), Just(0xc0u8), Just(0x80u8), Just(b'a')], 1..8),
-        1 => "[ -~]{0,40}".prop_map(|s| s.into_bytes()),
-        1 => "\\PC{0,12}".prop_map(|s| s.into_bytes()),
+        1 => re("[ -~]{0,40}").prop_map(|s| s.into_bytes()),
+        1 => re("\\PC{0,12}").prop_map(|s| s.into_bytes()),
     ];
     let sealed = (plaintext, password(), any::<u8>()).prop_map(|(p, password, salt_nonce_seed)| Kdf::Sealed {
         plaintext_hex: hex::encode(p),
